@@ -302,6 +302,34 @@ theorem pool_available (limit maxAge : Nat) (s : PSys) (h : PReach limit maxAge 
     rw [hi.lim] at h6
     omega
 
+/-- **`Get` destroys only idle resources whose age exceeds `maxAge`** — never one that is in use — and a
+resource it hands out again has not expired. -/
+theorem pool_destroys_only_expired_idle (limit maxAge : Nat) (s : PSys) (h : PReach limit maxAge s) (now : Nat) :
+    (∀ x ∈ (s.pool.get now).2.destroyed,
+        (∃ nd ∈ s.pool.idle, nd.item = x ∧ expired s.pool.maxAge now nd = true) ∧ ∀ t, (t, x) ∉ s.inUse)
+    ∧ (∀ item d, (s.pool.get now).2 = .got item false d →
+        ∃ nd ∈ s.pool.idle, nd.item = item ∧ expired s.pool.maxAge now nd = false) := by
+  have hi := preach_inv h
+  obtain ⟨pre, hpre, hexp, hd, hg⟩ :=
+    getLoop_destroyed s.pool.limit s.pool.maxAge now s.pool.next s.pool.idle s.pool.created []
+  unfold Pool.get
+  constructor
+  · intro x hx
+    have hx' : x ∈ pre.map (·.item) := by
+      revert hd hx
+      generalize (getLoop s.pool.limit s.pool.maxAge now s.pool.next s.pool.idle s.pool.created []).2 = res
+      cases res <;> simp only [GetResult.destroyed, List.nil_append] <;> intro hd hx <;> rw [hd] at hx <;> exact hx
+    obtain ⟨nd, hnd, rfl⟩ := List.mem_map.mp hx'
+    have hin : nd ∈ s.pool.idle := hpre.subset hnd
+    refine ⟨⟨nd, hin, rfl, hexp nd hnd⟩, ?_⟩
+    intro t ht
+    exact hi.disjoint nd.item (List.mem_map_of_mem (f := (·.item)) hin)
+      (List.mem_map_of_mem (f := fun x : Tid × Nat => x.2) ht)
+  · intro item d heq
+    rw [heq] at hg
+    obtain ⟨nd, h1, h2, h3⟩ := hg
+    exact ⟨nd, h1, h2, h3⟩
+
 /-- non-vacuity: limit 1, maxAge 10: user 0 gets resource 0 and puts it back at time 5; at time 20 user 1
 asks: resource 0 has expired, it is destroyed and a fresh resource 1 is handed out; user 2 has to wait. -/
 example :
